@@ -5,7 +5,7 @@ COLL_INVS = ['NoViolation', 'QueueMatchesFlags', 'FreeListSound', 'RemIsHeld', '
 def base(kind, cap0, ninit, nc, budget, maxpolls, maxitems=1, maxwakes=1, front=False, perpetual=False, fix=False, nw=2):
     return {'Kind': kind, 'Cap0': cap0, 'NInit': ninit, 'NC': nc, 'Budget': budget, 'NW': nw, 'MaxPolls': maxpolls,
             'MaxItems': maxitems, 'MaxWakes': maxwakes, 'GenMode': False, 'CursorFix': True, 'AllowFront': front,
-            'Mut': 'none', 'Perpetual': perpetual, 'WaitMul': 1, 'WaitAdd': 2}
+            'Mut': 'none', 'Perpetual': perpetual, 'WaitMul': 1, 'WaitAdd': 2, 'Panics': 0}
 
 # exhaustive model-checking configurations of Coll.tla (small constants; see DESIGN.md section 4)
 MC_BASE = {
@@ -33,6 +33,9 @@ MC_BASE = {
     'ja':       base('ja', 3, 3, 3, 2, 2),
     'tja':      base('tja', 3, 3, 3, 2, 2),
 }
+# the same with one child poll that panics (the panic unwinds through the collection's poll; the collection is used on)
+for _k in ('fub', 'fu', 'fob', 'fo', 'mb', 'mu', 'bu', 'bo', 'tbu', 'tbo', 'fe', 'ja', 'tja'):
+    MC_BASE[_k + '_panic'] = dict(MC_BASE[_k], Panics=1)
 
 def gen_job(name, basecfg, target_quick=1200, tails=('drain', 'quiet', 'drop'), consts=None):
     c = {'Budget': 61}
@@ -58,6 +61,8 @@ GEN = {
     'ja': gen_job('ja', 'ja', 1500, tails=('drain', 'repoll', 'drop')),
     'tja': gen_job('tja', 'tja', 1500, tails=('drain', 'repoll', 'drop')),
 }
+for _k in ('fub', 'fu', 'fob', 'mb', 'mu', 'bu', 'tbo', 'fe', 'ja', 'tja'):
+    GEN[_k + '_panic'] = dict(GEN[_k], name='cover_%s_panic' % _k, base=_k + '_panic', target_quick=600)
 
 def rnd(kind, size='small', profile='mix', nq=300, nt=3000, **kw):
     d = {'kind': kind, 'size': size, 'profile': profile, 'n_quick': nq, 'n_thorough': nt}
@@ -115,14 +120,15 @@ PLAN = {
             'mc': mcs('fob', 'fo', 'bo', 'tbo', 'ja', 'tja'),
             'gen': gens('fob', 'fo', 'bo', 'tbo', 'ja'),
             'random': suite(['fob', 'fo'], 400, 4000, 40, 400) + suite(['bo', 'tbo', 'ja', 'tja'], 200, 2000, 15, 150)},
-    'C05': {'mc': mcs('fub', 'fub_init', 'mb', 'mu', 'ja'),
-            'gen': gens('fub', 'mb', 'mu', 'ja'),
+    'C05': {'mc': mcs('fub', 'fub_init', 'mb', 'mu', 'ja', 'fub_panic', thorough=('mb_panic', 'mu_panic')),
+            'gen': gens('fub', 'mb', 'mu', 'ja', 'fub_panic'),
             'random': suite(['fub', 'fu', 'mb', 'mu', 'ja', 'bu'], 250, 2500, 20, 200, profiles=('stale',))},
-    'C06': {'mc': mcs('fub', 'fob', 'mb', 'bo', 'ja', 'tja'),
-            'gen': gens('fub', 'fob', 'mb', 'bo', 'ja', 'tja'),
+    'C06': {'mc': mcs('fub', 'fob', 'mb', 'bo', 'ja', 'tja', 'fub_panic', 'bo_panic', 'ja_panic', 'tja_panic',
+                       thorough=('fu_panic', 'fob_panic', 'fo_panic', 'mb_panic', 'mu_panic', 'bu_panic', 'tbu_panic', 'tbo_panic', 'fe_panic')),
+            'gen': gens('fub', 'fob', 'mb', 'bo', 'ja', 'tja', 'fub_panic', 'fu_panic', 'fe_panic', 'tja_panic'),
             'random': suite(ALL_KINDS, 200, 2000, 10, 100) + [rnd(k, 'small', 'panic', 60, 600) for k in ALL_KINDS] + [rnd(k, 'small', 'dpanic', 60, 600) for k in ALL_KINDS]},
-    'C07': {'mc': mcs('ja', 'tja'),
-            'gen': gens('ja', 'tja'),
+    'C07': {'mc': mcs('ja', 'tja', 'ja_panic', 'tja_panic'),
+            'gen': gens('ja', 'tja', 'ja_panic', 'tja_panic'),
             'random': suite(JOIN_KINDS, 600, 6000, 60, 600) + [rnd(k, 'small', 'panic', 200, 2000) for k in JOIN_KINDS] + [rnd(k, 'small', 'dpanic', 200, 2000) for k in JOIN_KINDS]},
     'C08': {'mc': mcs('fub', 'fu', 'mu'),
             'gen': gens('fub', 'fu', 'mu', 'bu', 'tja'),
@@ -137,8 +143,8 @@ PLAN = {
     'C11': {'mc': mcs('mb', 'mu'),
             'gen': gens('mb', 'mu'),
             'random': suite(MERGE_KINDS, 500, 5000, 60, 600, profiles=('budget',))},
-    'C12': {'mc': mcs('fub', 'fub_b1', 'fu', 'mb', 'mu'),
-            'gen': gens('fub', 'fu', 'mb'),
+    'C12': {'mc': mcs('fub', 'fub_b1', 'fu', 'mb', 'mu', 'fub_panic', thorough=('fu_panic', 'mb_panic')),
+            'gen': gens('fub', 'fu', 'mb', 'fub_panic', 'mb_panic'),
             'random': suite(COLL_KINDS + MERGE_KINDS, 250, 2500, 20, 200, profiles=('stale',))
                       + [rnd(k, 'small', 'panic', 80, 800) for k in COLL_KINDS + MERGE_KINDS]},
     'C13': {'mc': mcs('fub_perp', 'mb_perp', 'fu_perp', 'mu_perp', thorough=('mu_perp3',)) + [live('fub'), live('mb', MaxPolls=2), live('mu', NC=2), live('fu')],
